@@ -18,9 +18,9 @@ def interior(fd, a, times=1):
     return a[..., m:-m, m:-m, m:-m]
 
 
-def measure(seed, N, order):
+def measure(seed, N, order, **cache):
     rng = np.random.default_rng(seed)
-    rel = corecheck.make_rel(rng, N=N, order=order)
+    rel = corecheck.make_rel(rng, N=N, order=order, **cache)
     x, y, z = rel.fd.x, rel.fd.y, rel.fd.z
     rel.data["dtalpha"] = 0.3 + 0.1 * np.sin(0.7 * x - 0.4 * z)          # time-dependent lapse
     rel.data["dtbetaup3"] = np.array([0.1 * np.cos(y), -0.05 * np.sin(x + z), 0.02 + 0 * x])
@@ -44,6 +44,7 @@ def measure(seed, N, order):
         "grad n = -K - n a": np.max(np.abs(interior(fd, rel["st_covd_udown4"] + K4
                                                    + np.einsum("a...,b...->ab...", rel["ndown4"], a)))),
     }
+    res["(cached entries modified in place)"] = float(len(rel.__dict__.get("_w_viol", [])))
     return res
 
 
@@ -58,6 +59,17 @@ def search(ctx, n):
         for order in ((4,) if ctx.tier == "quick" else (2, 4, 6)):
             lo = measure(seed, 10, order)
             hi = measure(seed, 20, order)
+            # "any lapse, shift, metric and extrinsic curvature" — and any cache setting: with the most aggressive
+            # clean-up (every calculation, a memory budget below the inputs) the identities are judged on the same values
+            ag = measure(seed, 10, order, clear_cache_every_nbr_calc=1, memory_threshold_inGB=1e-9)
+            for what in lo:
+                ctx.count("oracle_evaluations")
+                if not abs(float(ag[what]) - float(lo[what])) <= 1e-9 * max(1.0, abs(float(lo[what]))):
+                    found += ctx.violation(
+                        "%s: residual %.3g with the default cache settings, %.3g with clean-up after every calculation and a "
+                        "1e-9 GB budget (order %d): the frozen inputs were not kept" % (what, float(lo[what]), float(ag[what]), order),
+                        {"kind": "input", "oracle": what, "generator_seed": seed, "order": order, "cache": "aggressive"},
+                        {"site": "kinematics", "oracle": what, "cache": "aggressive"})
             for what in lo:
                 ctx.count("oracle_evaluations")
                 e1, e2 = float(lo[what]), float(hi[what])
